@@ -292,11 +292,11 @@ class Extractor(object):
               and unparse(np_.body[-1].value) in ('(node.lineno, node.col_offset)',))
         if not ok:
             raise AnalysisError('util.np no longer returns (node.lineno, node.col_offset)')
-        gee = repo.klass(UTIL, 'get_expr_end_visitor')
-        txt = unparse(gee)
-        if txt.count('node.lineno, node.col_offset + 1') < 2 or 'generic_visit' not in txt:
-            raise AnalysisError('util.get_expr_end_visitor changed beyond the frozen summary '
-                                '"start of the last visited node, column + 1"')
+        from .exprend import expr_end_semantics
+        bad = [(c, v, d) for c, v, d in expr_end_semantics(repo) if v != 'ok']
+        if bad:
+            raise AnalysisError('util.get_expr_end no longer satisfies the summary "start of the last visited node, column + 1" '
+                                '(%s: %s); C13 reports the details' % (bad[0][0], bad[0][2]))
         il = repo.module_func(UTIL, 'insert_loc')
         if 'insort(locations, loc)' not in unparse(il) or 'locations.append(loc)' not in unparse(il):
             raise AnalysisError('util.insert_loc changed beyond the frozen summary "ordered insert by location"')
